@@ -124,6 +124,23 @@ def run(ctx):
         if len(samples) < 2:
             samples.append({"history": "connect(starttls=True) fault=%s tlsok=%s" % (fault, tlsok), "writes": [(t, b[:30].decode("latin-1")) for t, b in s.wire.writes]})
 
+    # 2a''. `starttls` given as something true that is not `True` (1, "yes", a non-empty list — the parameter is documented as a
+    #       boolean, and callers pass what their configuration parser gives them): a secured connection was asked for
+    for val in (1, "yes", 2, [0], 1.0):
+        srv = refserver.RefServer(r, starttls=True, sasl=b"PLAIN", post_tls_sasl=b"PLAIN")
+        s = msref.Session()
+        g = srv.greeting()
+        out = s.connect(b"", [], "user", "pw", starttls=val, server=srv)
+        record(["c op=new", msref.req_connect(g, [], "user", "pw", starttls=True, later=list(s.wire.segments))], ["ok", out])
+        evals += 1
+        nontriv += 1
+        probs = check_writes(s.wire.writes, True, srv.authed)
+        if "res=b1" not in out:
+            probs.append("connect(starttls=%r) should succeed: %s" % (val, out[:80]))
+        for p_ in probs:
+            viol.append({"history": "connect(starttls=%r) against a server offering STARTTLS" % (val,), "what": p_,
+                         "writes": [("tls" if t else "plain", b[:40].decode("latin-1")) for t, b in s.wire.writes]})
+
     # 2a'. the handshake succeeds but the server does not follow it with a usable capability listing (NO, a listing that ends in
     #      NO, BYE): nothing announced on the secured channel — nothing may be taken over from before the handshake, so no
     #      AUTHENTICATE at all
